@@ -20,7 +20,7 @@ func init() {
 	})
 	register(&PropRules{
 		ID:      "C13",
-		Explain: "saslauthd wire codec — structural part: (C13.1) framing shape: the encoder writes, per part, a buffer of 2+len(part) bytes whose first two bytes are BigEndian.PutUint16(len(part)) of the same part followed by its bytes, parts over 65535 are refused; the split function reads the length with BigEndian.Uint16(data[0:2]), refuses lengths over MaxRequestLength before returning any token, returns a token only when it is data[0:strlen+2] with advance == strlen+2 and enough data is present, and answers 'need more data' (0,nil,nil) only when not at EOF (or at EOF with no data left); the decoder strips exactly the 2 length bytes; (C13.2) per-field limits: each of the four request fields is refused by the encoder exactly when len > MaxRequestLength (= 256, pinned), placed at its own index, and the decoder refuses empty login/password; (C13.3) response grammar agreement (= C05.5) and the bounded reply (= C05.4); (C13.4) Go ↔ C agreement is decided by the C-side engine (C20: field order, htons, 256-byte clipping). Round 3: Scan() only while a part is missing (C13.1); every decoding entry point (Decode, Unmarshal) delegates to Decode over the whole input or is itself subject to the decode rules (C13.2/C13.3).",
+		Explain: "saslauthd wire codec — structural part: (C13.1) framing shape: the encoder writes, per part, a buffer of 2+len(part) bytes whose first two bytes are BigEndian.PutUint16(len(part)) of the same part followed by its bytes, parts over 65535 are refused; the split function reads the length with BigEndian.Uint16(data[0:2]), refuses lengths over MaxRequestLength before returning any token, returns a token only when it is data[0:strlen+2] with advance == strlen+2 and enough data is present, and answers 'need more data' (0,nil,nil) only when not at EOF (or at EOF with no data left); the decoder strips exactly the 2 length bytes; (C13.2) per-field limits: each of the four request fields is refused by the encoder exactly when len > MaxRequestLength (= 256, pinned), placed at its own index, and the decoder refuses empty login/password; (C13.3) response grammar agreement (= C05.5) and the bounded reply (= C05.4); (C13.4) Go ↔ C agreement is decided by the C-side engine (C20: field order, htons, 256-byte clipping). Round 3: Scan() only while a part is missing (C13.1); every decoding entry point (Decode, Unmarshal) delegates to Decode over the whole input or is itself subject to the decode rules (C13.2/C13.3). Round 4: the encoder is accepted in two equally strict forms (a buffer and a Write per part, or appending length and bytes of every part to one buffer that is written once with the error checked); Request.Encode hands over exactly [Login, Password, Service, Realm] and the decoder assigns each field its own part.",
 		Undec:   []string{"round-trip equality for every byte string (value level)", "re-encode == consumed bytes", "independence from read fragmentation (a property of bufio.Scanner executions)"},
 		Run:     runC13,
 		Floors:  map[string]int{"C13.1": 3, "C13.2": 2},
